@@ -114,6 +114,9 @@ let holds_c41 (case : string) (impl : string) : string =
       "sizes", Model.ck_sizes res;
       "rate", Model.ck_rate e rq;
       "fee", Model.ck_fee e rq res;
+      (* the bump fees the code charges (individual per preset input, discounted for automatic ones) cover what the unconfirmed
+         ancestors of all inputs really need *)
+      "bump-fee-below-need", Z.geq (zt_of_z res.Model.r_bump) (Z.of_string (get "bumpneed" hkv));
       (* the Gallina transcription of GetMinimumFeeRate against the real one *)
       "effrate-model", (string_of_z eff = get "effrate" p.envkv);
       (* second oracle: the node's mempool test-accept (signed, standard recipients, feerate at least the node's minimum) *)
@@ -244,6 +247,7 @@ let holds_c56 (case : string) (impl : string) : string =
               else if explicit && orig_had_change && List.length n_outs < List.length (Model.base_outs o b)
               then "bump-underpays-after-change-dropped:" else "underpays-old-fee-plus-increment"), pays;
              "not-a-valid-funding", (good <> []);
+             "bump-fee-below-need", Z.geq (zt_of_z n.Model.n_bump) (Z.of_string (get "bumpneed" hkv));
              "mempool-rejects-replacement", (get "tma" hkv = "ok" || not pays);
              "commit", (match get "committed" hkv with "-" -> true | c -> c = "ok,1,0,1,-") ] in
            (match good with
